@@ -267,7 +267,14 @@ def run_shard(shard):
         n1 = {"k": "dt", "z": "America/New_York", "inst": 1600000000000000}
         u1 = {"k": "dt", "z": None, "inst": 1500000000000000}
         u2 = {"k": "dt", "z": None, "inst": 1500000100000000}
-        for a, b in ((d1, d2), (p1, p2), (p1, n1), (u1, u2), (p1, p1)):
+        # endpoints in fixed offsets (cached FixedTimezone objects: a pickled copy gets fresh ones), in UTC, and values whose
+        # tzinfo is not a pendulum timezone
+        f1 = {"k": "dt", "z": 19800, "inst": 1577880000000000}
+        f2 = {"k": "dt", "z": 19800, "inst": 1614556800000001}
+        f3 = {"k": "dt", "z": -10800, "inst": 1600000000000000}
+        g1 = {"k": "dt", "z": "UTC", "inst": 1577880000000000}
+        g2 = {"k": "dt", "z": "UTC", "inst": 1614556800000001}
+        for a, b in ((d1, d2), (p1, p2), (p1, n1), (u1, u2), (p1, p1), (f1, f2), (f1, f3), (g1, g2), (g1, f2)):
             for ab in (False, True):
                 cases.append({"k": "iv", "a": a, "b": b, "abs": ab})
                 cases.append({"k": "iv", "a": b, "b": a, "abs": ab})
